@@ -280,7 +280,7 @@ def lru_ok() -> Optional[str]:
     return None
 
 
-def body(chk: Check, *, pairs, triples, limit, n_pre2: int, n_random: int, slot_sweep=(600, 12)) -> None:
+def body(chk: Check, *, pairs, triples, limit, n_pre2: int, n_random: int, slot_sweep=(600, 20)) -> None:
     from django.conf import settings
     import django_components.cache as dcache
     _setup()
@@ -305,14 +305,24 @@ def body(chk: Check, *, pairs, triples, limit, n_pre2: int, n_random: int, slot_
         chs = [(f"rnd{k}", sched.random_chooser(random.Random(rnd.random()), 0.25)) for k in range(n_random)]
         explore(chk, "provide " + "|".join(w), mk(w), chs, lines=False)
     # slots and fills: state that must be confined to the rendering thread (fill collection, default aliases,
-    # is_filled); pre-emption before every line of slots.py: random schedules + a sweep of single pre-emptions
-    sched.WATCH_EXTRA[:] = ["django_components/slots.py"]
+    # is_filled) and the generation of render ids; pre-emption before every line of slots.py, util/nanoid.py and
+    # util/misc.py: random schedules + a sweep of single pre-emptions
+    sched.WATCH_EXTRA[:] = ["django_components/slots.py", "django_components/util/nanoid.py", "django_components/util/misc.py"]
     try:
         for w in [("named", "alias"), ("alias", "implicit"), ("loop", "alias"), ("implicit", "loop", "named")]:
             mks = (lambda w=w: [slot_workload(nm, i + 1) for i, nm in enumerate(w)])
             chs = [(f"rnd{k}", sched.random_chooser(random.Random(rnd.random()), 0.08)) for k in range(n_random)] + \
                 [(f"pre{a}", sched.preemption_chooser([a])) for a in range(1, slot_sweep[0], slot_sweep[1])]
             explore(chk, "slots " + "|".join(w), mks, chs, lines=True)
+    finally:
+        sched.WATCH_EXTRA.clear()
+    # render ids: dense pre-emption inside the id generator only (ids of concurrent renders must stay distinct)
+    sched.WATCH_EXTRA[:] = ["django_components/util/nanoid.py", "django_components/util/misc.py"]
+    try:
+        for w in [("implicit", "alias"), ("named", "implicit", "loop")]:
+            mks = (lambda w=w: [slot_workload(nm, i + 1) for i, nm in enumerate(w)])
+            chs = [(f"rnd{k}", sched.random_chooser(random.Random(rnd.random()), 0.5)) for k in range(2 * n_random)]
+            explore(chk, "render ids " + "|".join(w), mks, chs, lines=True)
     finally:
         sched.WATCH_EXTRA.clear()
     # template cache of size 1-2: compile more distinct templates than fit, line-level pre-emption
